@@ -50,6 +50,7 @@ theorem next_nf (s : St) (e : Ev) (h : s.failed = false) (he : isFail e = false)
   | tick cb => exact ⟨s, by simp [next, h], h, id⟩
   | exit cb r => exact ⟨s, by simp [next, h], h, id⟩
   | emit p x => exact ⟨s, by simp [next, h], h, id⟩
+  | monFan r t x => exact ⟨s, by simp [next, h], h, id⟩
   | snap sn => exact ⟨s, by simp [next, h], h, id⟩
   | sendRet b m ok => cases ok <;> exact ⟨s, by simp [next, h], h, id⟩
   | callRet k r => cases r <;> exact ⟨s, by simp [next, h], h, id⟩
@@ -92,7 +93,7 @@ theorem cleanup_noSpawnRet (a : Actor) (e : Option SupEv) : ∀ r, Ev.spawnRet r
   unfold cleanup
   split
   · simp
-  · cases e <;> cases hs : a.sup <;> simp [Actor.setStatus, hs]
+  · cases e <;> cases hs : a.sup <;> cases hm : a.mons <;> simp [Actor.setStatus, hs, hm, notifyOuts]
 
 theorem finish_ok (a : Actor) (e : SupEv) : Ok (finish a e) := by
   refine ⟨?_, by simp [finish_phase, started]⟩
@@ -134,8 +135,8 @@ theorem afterExit_ok (a : Actor) (r : Res) : Ok (afterExit a r) := by
   split
   · refine Ok.andThen ?_ (listen_ok _)
     intro e he
-    cases hs : a.sup <;> simp [Actor.setStatus, hs] at he
-    subst he; rfl
+    cases hs : a.sup <;> cases hm : a.mons <;> simp [Actor.setStatus, hs, hm, notifyOuts] at he <;>
+      first | (subst he; rfl) | (rcases he with he | he <;> subst he <;> rfl)
   · exact listen_ok _
   · exact listen_ok _
   · exact finish_ok _ _
@@ -262,6 +263,9 @@ theorem envOp_frame (a : Actor) (op : AOp) :
     refine ⟨?_, ?_, ?_, ?_⟩ <;>
       (simp only [Actor.envOp, opUnlink]; split <;> first | rfl | exact id | simp)
   | kidAdd c => exact ⟨by simp [Actor.envOp], rfl, rfl, id⟩
+  | monAdd m => exact ⟨by simp [Actor.envOp], rfl, rfl, id⟩
+  | monDel m => exact ⟨by simp [Actor.envOp], rfl, rfl, id⟩
+  | monDrop m => exact ⟨by simp [Actor.envOp], rfl, rfl, id⟩
   | kidDel c => exact ⟨by simp [Actor.envOp], rfl, rfl, id⟩
   | call k =>
     refine ⟨?_, ?_, ?_, ?_⟩
@@ -461,6 +465,12 @@ theorem dead_core (a : Actor) (op : AOp) (hd : Dead a) (s : St) (hf : s.failed =
     simp only [show ¬ (6 < 5) by omega, ↓reduceIte]
     exact ⟨by simp [hph], by simp [hd.status], by simp, by simp [hd.name], by simp [hd.groups], by simpa using hd.calls⟩
   | kidAdd c => exact ⟨s, by simp [Actor.stepCore, hnf, Actor.envOp], hf, by
+      simp only [Actor.stepCore, hnf, ↓reduceIte, Actor.envOp]; exact ⟨by simp [hph], by simp [hd.status], by simp [hd.sup], by simp [hd.name], by simp [hd.groups], by simpa using hd.calls⟩⟩
+  | monAdd m => exact ⟨s, by simp [Actor.stepCore, hnf, Actor.envOp], hf, by
+      simp only [Actor.stepCore, hnf, ↓reduceIte, Actor.envOp]; exact ⟨by simp [hph], by simp [hd.status], by simp [hd.sup], by simp [hd.name], by simp [hd.groups], by simpa using hd.calls⟩⟩
+  | monDel m => exact ⟨s, by simp [Actor.stepCore, hnf, Actor.envOp], hf, by
+      simp only [Actor.stepCore, hnf, ↓reduceIte, Actor.envOp]; exact ⟨by simp [hph], by simp [hd.status], by simp [hd.sup], by simp [hd.name], by simp [hd.groups], by simpa using hd.calls⟩⟩
+  | monDrop m => exact ⟨s, by simp [Actor.stepCore, hnf, Actor.envOp], hf, by
       simp only [Actor.stepCore, hnf, ↓reduceIte, Actor.envOp]; exact ⟨by simp [hph], by simp [hd.status], by simp [hd.sup], by simp [hd.name], by simp [hd.groups], by simpa using hd.calls⟩⟩
   | kidDel c => exact ⟨s, by simp [Actor.stepCore, hnf, Actor.envOp], hf, by
       simp only [Actor.stepCore, hnf, ↓reduceIte, Actor.envOp]; exact ⟨by simp [hph], by simp [hd.status], by simp [hd.sup], by simp [hd.name], by simp [hd.groups], by simpa using hd.calls⟩⟩
